@@ -28,7 +28,11 @@ fn gen_lists(r: &mut Rng) -> (Vec<String>, Vec<String>) {
     }
     net.retain(|l| parse_net(l, true).map(|f| !f.mask.contains(adblock::filters::network::NetworkFilterMask::IS_COMPLETE_REGEX)).unwrap_or(false));
     let scripts = cosm::script_pool();
-    let cos: Vec<String> = (0..r.below(8)).map(|_| cosm::gen_rule(r, &scripts)).collect();
+    let mut cos: Vec<String> = (0..r.below(8)).map(|_| cosm::gen_rule(r, &scripts)).collect();
+    if r.pct(45) {
+        let h = r.pick(&["a.com", "x.sub.a.com", "s.b.co.uk", "c.org", "sub.a.com"]).to_string();
+        cos.extend(cosm::host_bundle(r, &h, "f1"));
+    }
     (net, cos)
 }
 
@@ -119,7 +123,7 @@ pub fn run_c08(seed: u64, n: usize, out: &mut Out) {
                 let vb = b.check_network_request(&q.req);
                 let desc = json!({"rules": all, "debug": debug, "optimize": optimize, "tags": tags, "url": u, "source": s, "type": t, "original": show_verdict(&va), "deserialized": show_verdict(&vb)});
                 let class = if has_rp { Some("removeparam_list_not_serialized") } else { None };
-                if strip(&va) != strip(&vb) || va.redirect.is_some() != vb.redirect.is_some() {
+                if strip(&va) != strip(&vb) || va.redirect != vb.redirect {
                     out.fail("network-answer-differs-after-reload", class, desc.clone());
                 }
                 if a.get_csp_directives(&q.req).map(|c| show_csp(&Some(c))) != b.get_csp_directives(&q.req).map(|c| show_csp(&Some(c))) {
